@@ -17,6 +17,7 @@ type SpecEnv struct {
 	typeArgs map[string]types.Type
 	st       *State // state receiving side assumptions (type invariants of reads); may be nil
 	depth    int
+	macros   map[string]SExpr // contract-level `let` definitions, expanded where used
 }
 
 type specFail struct{ msg string }
@@ -24,7 +25,7 @@ type specFail struct{ msg string }
 func sfail(format string, a ...any) { panic(specFail{fmt.Sprintf(format, a...)}) }
 
 func (e *SpecEnv) child() *SpecEnv {
-	n := &SpecEnv{names: map[string]Val{}, old: e.old, pkg: e.pkg, typeArgs: e.typeArgs, st: e.st, depth: e.depth}
+	n := &SpecEnv{names: map[string]Val{}, old: e.old, pkg: e.pkg, typeArgs: e.typeArgs, st: e.st, depth: e.depth, macros: e.macros}
 	for k, v := range e.names {
 		n.names[k] = v
 	}
@@ -210,6 +211,14 @@ func (c *Ctx) nextQ() int { c.qN++; return c.qN }
 func (f *Frame) specIdent(name string, env *SpecEnv) Val {
 	if v, ok := env.names[name]; ok {
 		return v
+	}
+	if m, ok := env.macros[name]; ok {
+		if env.depth > 30 {
+			sfail("let %s expands recursively", name)
+		}
+		ne := env.child()
+		ne.depth = env.depth + 1
+		return f.specEval(m, ne)
 	}
 	if name == "nil" {
 		return Val{T: "nil", Ty: types.Typ[types.UntypedNil]}
@@ -459,6 +468,7 @@ func (f *Frame) specCall(x *SCall, env *SpecEnv) Val {
 			}
 			oe := env.old.child()
 			oe.st = env.st
+			oe.macros = env.macros
 			// quantifier-bound variables and lets stay visible inside old()
 			for k, v := range env.names {
 				if _, ok := oe.names[k]; !ok {
